@@ -111,7 +111,31 @@ void add(std::vector<Case> &cases) {
         }
   if constexpr (o > 0) add<o - 1>(cases);
 }
-#ifdef FIXED_GRID
+#ifdef LARGE
+// large structural sizes on the fixed rational grid: every window of a LARGE-point grid (orders 0, 1, 3), and objects with a
+// history for a sample of window pairs
+template <size_t o>
+void add_large(std::vector<Case> &cases) {
+  for (auto w : windows(LARGE)) cases.push_back({"eval-large/o" + std::to_string(o) + "/n" + std::to_string(LARGE) + "/w" + W(w), [=] { eval_case<o>(LARGE, w); }});
+}
+#ifndef LARGE_HIST
+#define LARGE_HIST 6
+#endif
+void hx_cases(std::vector<Case> &cases) {
+  add_large<1>(cases);
+#ifdef LARGE_ALL
+  add_large<0>(cases);
+  add_large<3>(cases);
+#else
+  for (auto w : windows_sample(LARGE, 30, 5)) cases.push_back({"eval-large/o3/n" + std::to_string(LARGE) + "/w" + W(w), [=] { eval_case<3>(LARGE, w); }});
+#endif
+  auto ws = windows_sample(LARGE, LARGE_HIST, 2), wt = windows_sample(LARGE, LARGE_HIST - 1, 3);
+  for (auto w : ws)
+    for (auto t : wt)
+      for (int kind = 1; kind < 6; kind++)
+        cases.push_back({"eval-history-large/o2/n" + std::to_string(LARGE) + "/w" + W(w) + "/wt" + W(t) + "/k" + std::to_string(kind), [=] { history_case<2>(LARGE, w, t, kind); }});
+}
+#elif defined(FIXED_GRID)
 template <size_t o>
 void add_high(std::vector<Case> &cases) {
   for (size_t n = 2; n <= MAXN; n++)
